@@ -98,14 +98,26 @@ func (g *GlobalTransactionManager) Commit(ctx context.Context, gtr *GlobalTransa
 		bf.Wait()
 	}
 
-	if err != nil || bf.Err() != nil {
-		lastErr := errors.Wrap(err, bf.Err().Error())
+	// nothing was sent (the backoff had already terminated, e.g. the context is cancelled)
+	// or the reply is empty: the commit was not acknowledged
+	if err == nil && res == nil {
+		err = errors.New("global commit request was not acknowledged")
+	}
+	if err != nil {
+		lastErr := err
+		if bfErr := bf.Err(); bfErr != nil {
+			lastErr = errors.Wrap(err, bfErr.Error())
+		}
 		log.Warnf("send global commit request failed, xid %s, error %v", gtr.Xid, lastErr)
 		return lastErr
 	}
 
+	resp, ok := res.(message.GlobalCommitResponse)
+	if !ok {
+		return fmt.Errorf("unexpected global commit response %T, xid %s", res, gtr.Xid)
+	}
 	log.Infof("send global commit request success, xid %s", gtr.Xid)
-	gtr.TxStatus = res.(message.GlobalCommitResponse).GlobalStatus
+	gtr.TxStatus = resp.GlobalStatus
 
 	return nil
 }
@@ -140,14 +152,26 @@ func (g *GlobalTransactionManager) Rollback(ctx context.Context, gtr *GlobalTran
 		bf.Wait()
 	}
 
-	if err != nil && bf.Err() != nil {
-		lastErr := errors.Wrap(err, bf.Err().Error())
+	// nothing was sent (the backoff had already terminated, e.g. the context is cancelled)
+	// or the reply is empty: the rollback was not acknowledged
+	if err == nil && res == nil {
+		err = errors.New("global rollback request was not acknowledged")
+	}
+	if err != nil {
+		lastErr := err
+		if bfErr := bf.Err(); bfErr != nil {
+			lastErr = errors.Wrap(err, bfErr.Error())
+		}
 		log.Errorf("GlobalRollbackRequest rollback failed, xid %s, error %v", gtr.Xid, lastErr)
 		return lastErr
 	}
 
+	resp, ok := res.(message.GlobalRollbackResponse)
+	if !ok {
+		return fmt.Errorf("unexpected global rollback response %T, xid %s", res, gtr.Xid)
+	}
 	log.Infof("GlobalRollbackRequest rollback success, xid %s,", gtr.Xid)
-	gtr.TxStatus = res.(message.GlobalRollbackResponse).GlobalStatus
+	gtr.TxStatus = resp.GlobalStatus
 
 	return nil
 }
